@@ -38,6 +38,7 @@ impl FecEncoder for RaptorEncoder {
 }
 
 pub struct RaptorDecoder {
+    nb_source_symbols: usize,
     source_block_size: usize,
     decoder: raptor_code::SourceBlockDecoder,
     data: Option<Vec<u8>>,
@@ -51,10 +52,30 @@ impl RaptorDecoder {
             source_block_size
         );
         RaptorDecoder {
+            nb_source_symbols,
             decoder: raptor_code::SourceBlockDecoder::new(nb_source_symbols),
             source_block_size,
             data: None,
         }
+    }
+}
+
+impl RaptorDecoder {
+    /// Length of an encoding symbol: the block is cut into `nb_source_symbols` pieces of
+    /// semi-equal size (longer ones first), repair symbols have the size of the longest piece
+    fn symbol_length(&self, esi: u32) -> usize {
+        if self.nb_source_symbols == 0 {
+            return 0;
+        }
+        let small = self.source_block_size / self.nb_source_symbols;
+        let nb_long = self.source_block_size - small * self.nb_source_symbols;
+        if nb_long == 0 {
+            return small;
+        }
+        if (esi as usize) < nb_long || esi as usize >= self.nb_source_symbols {
+            return small + 1;
+        }
+        small
     }
 }
 
@@ -69,6 +90,17 @@ impl FecDecoder for RaptorDecoder {
             encoding_symbol.len(),
             self.source_block_size
         );
+
+        if encoding_symbol.len() != self.symbol_length(esi) {
+            // The raptor decoder panics when it rebuilds the block from symbols that are too short
+            log::error!(
+                "Discard encoding symbol {} of {} bytes, expected {}",
+                esi,
+                encoding_symbol.len(),
+                self.symbol_length(esi)
+            );
+            return;
+        }
 
         self.decoder.push_encoding_symbol(encoding_symbol, esi)
     }
